@@ -21,6 +21,7 @@ from harness import values as V
 from harness.core import cbool, clist, cnat, copt, cz, err_name
 
 PID = "C07"
+TRANSLATE = ["EqSlice.v"]     # translator tie: coq/gen_proofs/EqSlice.v is re-proved against definitions regenerated from /repo
 PRELUDE = ("From Coq Require Import List ZArith.\nImport ListNotations.\n"
            "From Serif Require Import Base.PyVal Base.StErr Spec.PySlice Model.Index Corr.C07.")
 FAILING = "C07.failing"
